@@ -55,10 +55,19 @@ def chain_ok(chain):
     return True
 
 
+# completed control flow that ran earlier in a still-active function: loops left by break / continue from if, else-if and else arms, a finished
+# if/else.  None of it is active at the failure, so none of it may show in the trace.
+HIST = ["hq = 0", "while hq < 3 {", "\thq = hq + 1", "\tif hq == 1 {", "\t\tcontinue", "\t} else if hq == 2 {", "\t\thq = hq + 0", "\t} else {", "\t\tbreak", "\t}", "}",
+        "from 0 to 3, gq {", "\tif gq == 1 {", "\t\tcontinue", "\t} else {", "\t\tif gq == 2 {", "\t\t\tbreak", "\t\t}", "\t}", "}",
+        "hz = 0", "if a == 1 {", "\thz = 1", "} else {", "\thz = 2", "}"]
+OPEN_BLOCKS = {"plain": 0, "if": 1, "else": 1, "while": 2, "from": 1}
+
+
 def fail_block(fk, pos, ind):
     lines = FAILS[fk][0]
     setup, last = lines[:-1], lines[-1]
     pos, _, ctx = pos.partition("@")
+    pos = pos.replace("+hist", "")
     if ctx and last.startswith("v = "):
         # the failing expression in another statement context than an assignment
         e = last[4:]
@@ -83,6 +92,7 @@ def fail_block(fk, pos, ind):
 def build(chain, fk, pos):
     """-> (files, expected stdout lines, list of (kind, name) innermost first, assert position or None)"""
     n = len(chain)
+    hist = HIST if "+hist" in pos else []
     main = ["class Kf {", "\tf: int", "\tconstructor(self) {", "\t\tself.f = 1", "\t}", "}"]
     helper = []
     expected = []
@@ -106,7 +116,7 @@ def build(chain, fk, pos):
     defs = []
     for i in range(n, 0, -1):
         k = chain[i - 1]
-        body = [f'print "enter {i}"']
+        body = [f'print "enter {i}"'] + hist
         if i == n:
             body += fail_block(fk, pos, 0)
             body += ['print "after failure"', "return a"]
@@ -142,10 +152,11 @@ def build(chain, fk, pos):
     # module-level driver
     main.append('print "start"')
     if n == 0:
-        main += ["a = 1"] + fail_block(fk, pos, 0) + ['print "after failure"']
+        main += ["a = 1"] + hist + fail_block(fk, pos, 0) + ['print "after failure"']
     else:
         k = chain[0]
         main.append("a = 1")
+        main += hist
         if k == "modfn":
             nxt = ", f2" if n > 1 else ", stop"
             main.append(f"res = helper.mf1(a{nxt})")
@@ -194,7 +205,7 @@ class C17(Check):
             "plain / inside if / else / while / from; for chains <= 1 also the failing expression as print argument, list element, if condition, "
             "while condition, assert operand and string concatenation operand).  Each frame prints a line before calling the next.  Non-trivial = chain length >= 1.")
     assumptions = ["function labels are learnt from make_function/store pairs and method names in the loaded bytecode (hook H3), not guessed",
-                   "block pseudo-frames (<if>, <else>, <while>) are dropped from the printed trace before comparison; a failure raised by a built-in method must list that built-in (<native code>#...) as the innermost line, other failures must not",
+                   "block pseudo-frames (<if>, <else>, <while>) are not compared with the function list, but the report may show at most the blocks open at the failure (none of a finished loop or branch, none in a caller); a failure raised by a built-in method must list that built-in (<native code>#...) as the innermost line, other failures must not",
                    "stdout and stderr are captured through one pipe so that flush ordering is observable"]
     chunksize = 16
 
@@ -213,7 +224,8 @@ class C17(Check):
         l2 = ((ch, fk, "if") for ch in chains(3, L) for fk in (fails if tier == "thorough" else ["assert", "div-int", "index", "overflow-add"]))
         ctxs = ["print", "list", "cond", "while-cond", "assert", "interpolated"]
         l0b = [(ch, fk, "plain@" + cx) for ch in chains(0, 1) for fk in FAILS if FAILS[fk][0][-1].startswith("v = ") for cx in ctxs]
-        ls = [("L0-chains<=1-all-kinds-all-positions", l0), ("L0b-chains<=1-failing-expression-in-6-statement-contexts", l0b),
+        l0h = [(ch, fk, pos + "+hist") for ch in chains(0, 2) for fk in ("assert", "index", "div-int") for pos in POSITIONS]
+        ls = [("L0-chains<=1-all-kinds-all-positions", l0), ("L0h-chains<=2-after-completed-loops-and-branches-in-every-active-function", l0h), ("L0b-chains<=1-failing-expression-in-6-statement-contexts", l0b),
               ("L1-chains=2", l1), (f"L2-chains-3..{L}", l2)]
         if tier == "thorough":
             deep = [k for k in FRAME_KINDS if k in ("fn", "method", "callback")]
@@ -268,6 +280,20 @@ class C17(Check):
             mfl = re.match(r"^[\s\W\d]*?(?:at\s+|in\s+)?(<native code>#\S+|[^\s#<>`'\"]+\.mmm#\S+?)[\s,;.:]*$", tl_)
             if mfl:
                 got.append(mfl.group(1))
+        # block pseudo-frames (lines that carry a bare `<...>` label): if the report shows them, it may show only blocks that are open at the
+        # failure - the blocks around the failing statement in the innermost function, none in its callers (they call from their top level)
+        segs, cur = [], 0
+        for tl_ in after.split("\n"):
+            if re.match(r"^[\s\W\d]*?<[A-Za-z_ -]+>[\s,;.:]*$", tl_):
+                cur += 1
+            elif re.match(r"^[\s\W\d]*?(?:at\s+|in\s+)?([^\s#<>`'\"]+\.mmm#\S+?)[\s,;.:]*$", tl_):
+                segs.append(cur)
+                cur = 0
+        base_pos = pos.partition("@")[0].replace("+hist", "")
+        allowed = OPEN_BLOCKS[base_pos]
+        if segs and (segs[0] > allowed or any(x > 0 for x in segs[1:])):
+            bad("stale-block-frames", f"the trace shows block frames that are not open at the failure: per function (innermost first) {segs}, "
+                                      f"open blocks around the failing statement: {allowed}, none in the callers")
         if not got:
             bad("no-trace", f"no call stack trace in the report: {after[:300]}")
         else:
